@@ -56,7 +56,10 @@ type Machine struct {
 	subs *Subscriptions
 
 	errInternal chan error
-	panicCaught atomic.Bool
+	// errInternalMx orders sends to errInternal with its close (disposal).
+	errInternalMx     sync.RWMutex
+	errInternalClosed bool
+	panicCaught       atomic.Bool
 	// If true, logs will start with the machine's id (5 chars).
 	// Default: true.
 	logId atomic.Bool
@@ -476,7 +479,10 @@ func (m *Machine) doDispose(force bool) {
 
 	// dispose chans
 
+	m.errInternalMx.Lock()
+	m.errInternalClosed = true
 	close(m.errInternal)
+	m.errInternalMx.Unlock()
 	m.subs.dispose()
 	for _, mut := range m.queue {
 		if !mut.IsCheck {
@@ -1457,6 +1463,12 @@ func (m *Machine) sendErrInternal(err error) {
 	defer func() {
 		_ = recover()
 	}()
+	// the disposal closes the channel under the write lock
+	m.errInternalMx.RLock()
+	defer m.errInternalMx.RUnlock()
+	if m.errInternalClosed {
+		return
+	}
 	select {
 	case m.errInternal <- err:
 	default:
